@@ -1029,19 +1029,21 @@ pub fn program(p: &mut Prng) -> String {
 /// Small programs for the Bristol / circuit-corruption worlds: few inputs, few hundred gates,
 /// biased to repeated outputs, constant outputs, outputs feeding later gates, several parties.
 pub fn small_program(p: &mut Prng) -> String {
-    let nparties = p.range(1, 4) as usize;
-    let tys = ["bool", "u8", "u8", "i8", "u16"];
-    let params: Vec<(String, &str)> = (0..nparties).map(|i| (format!("p{i}"), *p.pick(&tys))).collect();
+    let nparties = if p.chance(1, 8) { p.range(5, 7) } else { p.range(1, 4) } as usize;
+    let tys = ["bool", "u8", "u8", "i8", "u16", "bool"];
+    let mut params: Vec<(String, &str)> = (0..nparties).map(|i| (format!("p{i}"), *p.pick(&tys))).collect();
+    // zero-width parties are legal: they contribute a party with 0 input bits
+    if p.chance(1, 6) {
+        let at = p.usize_below(params.len() + 1);
+        params.insert(at, (format!("z{at}"), *p.pick(&["[u8; 0]", "()", "[bool; 0]"])));
+    }
     let sig = params.iter().map(|(n, t)| format!("{n}: {t}")).collect::<Vec<_>>().join(", ");
-    // integer view of every parameter in u8
-    let as_u8 = |n: &str, t: &str| -> String {
-        match t {
-            "u8" => n.to_string(),
-            "bool" => format!("({n} as u8)"),
-            _ => format!("({n} as u8)"),
-        }
-    };
-    let vals: Vec<String> = params.iter().map(|(n, t)| as_u8(n, t)).collect();
+    // integer view of every (non-empty) parameter in u8
+    let vals: Vec<String> = params
+        .iter()
+        .filter(|(_, t)| !t.contains("; 0]") && *t != "()")
+        .map(|(n, t)| if *t == "u8" { n.to_string() } else { format!("({n} as u8)") })
+        .collect();
     let pickv = |p: &mut Prng| vals[p.usize_below(vals.len())].clone();
     let mut e = pickv(p);
     for _ in 0..p.below(3) {
@@ -1049,7 +1051,8 @@ pub fn small_program(p: &mut Prng) -> String {
         e = format!("({e} {op} {})", pickv(p));
     }
     let b = format!("({} < {})", pickv(p), pickv(p));
-    let (ret, body) = match p.below(12) {
+    let b2 = format!("({} == {})", pickv(p), pickv(p));
+    let (ret, body) = match p.below(18) {
         0 => ("(u8, u8)".to_string(), format!("let v = {e}; (v, v)")),
         1 => ("[u8; 3]".to_string(), format!("let v = {e}; [v; 3]")),
         2 => ("(u8, bool, u8)".to_string(), format!("let v = {e}; (v, {b}, v ^ 255u8)")),
@@ -1061,6 +1064,14 @@ pub fn small_program(p: &mut Prng) -> String {
         8 => ("(bool, u8, bool)".to_string(), format!("let c = {b}; (c, {e}, c)")),
         9 => ("u8".to_string(), e.clone()),
         10 => ("[bool; 2]".to_string(), format!("let c = {b}; [c, c]")),
+        // repeated outputs in non-adjacent positions, several distinct repeated wires
+        11 => ("(bool, bool, bool)".to_string(), format!("let c = {b}; let d = {b2}; (c, d, c)")),
+        12 => ("(bool, bool, bool, bool, bool)".to_string(), format!("let c = {b}; let d = {b2}; (c, d, c, d, c)")),
+        13 => ("(bool, bool, bool, bool)".to_string(), format!("let c = {b}; (true, c, true, false)")),
+        14 => ("(u8, bool, u8, bool)".to_string(), format!("let v = {e}; let c = {b}; (v, c, v, c)")),
+        // outputs that also feed later gates, whose results are outputs too
+        15 => ("(u8, u8, u8)".to_string(), format!("let v = {e}; let w = v + 1u8; let x = w & v; (v, w, x)")),
+        16 => ("(bool, ())".to_string(), format!("({b}, ())")),
         _ => ("(u8, u8, u8)".to_string(), format!("let v = {e}; (v, 7u8, v)")),
     };
     format!("pub fn main({sig}) -> {ret} {{\n    {body}\n}}\n")
